@@ -549,16 +549,18 @@ class StridedInterval:
 
         nsplit = self._nsplit()
         if len(nsplit) == 1:
-            # preserve the highest bit :-)
-            highest_bit_set = self.lower_bound > StridedInterval.signed_max_int(nsplit[0].bits)
+            # preserve the highest bit :-)  Each bound keeps its own: a piece that does not straddle the north pole
+            # may still run from the negative half past zero into the positive one
+            signed_max = StridedInterval.signed_max_int(nsplit[0].bits)
 
             lower = self.lower_bound >> shift_amount
             upper = self.upper_bound >> shift_amount
             stride = StridedInterval._rshift_stride(self.stride, shift_amount)
             mask = (2**shift_amount - 1) << (self.bits - shift_amount)
 
-            if highest_bit_set:
+            if self.lower_bound > signed_max:
                 lower = lower | mask
+            if self.upper_bound > signed_max:
                 upper = upper | mask
             if lower == upper:
                 stride = 0
